@@ -171,153 +171,6 @@ func (c *Checker) checkReadFrom() {
 		return
 	}
 	c.analysed[fn.String()] = true
-	// deliveries
-	var deliveries []*ssa.Call
-	for _, ci := range allCalls(fn) {
-		if call, ok := ci.(*ssa.Call); ok && call.Call.IsInvoke() && call.Call.Method.Name() == "WritePacket" {
-			deliveries = append(deliveries, call)
-		}
-	}
-	c.floorCheck("C18.readfrom WritePacket call sites", len(deliveries), 1)
-	for _, d := range deliveries {
-		arg := canonConstruct(d.Parent(), sx(d.Call.Args[0]))
-		c.check("C18.readfrom", anchor, "delivers the writer's own packet buffer", arg == "&$p0.pkt", "argument is "+arg)
-		// dominated by the true edge of (count == 188)
-		guard, cnt := dominatingEq188(d)
-		if !c.check("C18.readfrom", anchor, "delivery guarded by read count == 188", guard != nil, "no dominating test `count == 188`") {
-			continue
-		}
-		// where does the count come from?
-		src := stripConv(cnt)
-		okFull, how := false, sx(src)
-		if ex, ok := src.(*ssa.Extract); ok && ex.Index == 0 {
-			if call, ok := ex.Tuple.(*ssa.Call); ok {
-				name := calleeName(call)
-				switch {
-				case name == "io.ReadFull" && len(call.Call.Args) == 2:
-					okFull = canonConstruct(call.Parent(), sx(call.Call.Args[1])) == "&$p0.pkt[:]"
-					how = "io.ReadFull into " + sx(call.Call.Args[1])
-				case name == "io.ReadAtLeast" && len(call.Call.Args) == 3:
-					okFull = canonConstruct(call.Parent(), sx(call.Call.Args[1])) == "&$p0.pkt[:]" && sx(call.Call.Args[2]) == "188"
-					how = "io.ReadAtLeast into " + sx(call.Call.Args[1]) + " min " + sx(call.Call.Args[2])
-				case call.Call.IsInvoke() && call.Call.Method.Name() == "Read":
-					how = "a single Read call (a reader may return fewer than 188 bytes per call: short reads would be dropped or reported as invalid length)"
-				}
-			}
-		}
-		c.check("C18.readfrom", anchor, "the 188-byte buffer is filled by a full-packet read (partial reads accumulate)", okFull, "count comes from "+how)
-		// write error leaves the loop
-		c.check("C18.readfrom", anchor, "a failed delivery ends the loop and its error is returned", writeErrorBreaks(fn, d), "no `if werr != nil { … break }` returning that error")
-	}
-	// trailing partial packet → invalid length; reader error propagation
-	hasInvalid, hasReaderErr := false, false
-	for _, b := range fn.Blocks {
-		for _, ins := range b.Instrs {
-			if phi, ok := ins.(*ssa.Phi); ok {
-				for _, e := range phi.Edges {
-					s := sx(e)
-					if strings.HasSuffix(s, "ErrInvalidPacketLength") {
-						hasInvalid = true
-					}
-					if ex, ok := e.(*ssa.Extract); ok && ex.Index == 1 {
-						if call, ok := ex.Tuple.(*ssa.Call); ok {
-							n := calleeName(call)
-							if n == "io.ReadFull" || n == "io.ReadAtLeast" || strings.HasSuffix(n, ".Read") {
-								hasReaderErr = true
-							}
-						}
-					}
-				}
-			}
-		}
-	}
-	c.check("C18.readfrom", anchor, "a partial trailing packet yields the invalid-length error", hasInvalid, "ErrInvalidPacketLength is never assigned")
-	c.check("C18.readfrom", anchor, "the reader's own error can be returned", hasReaderErr, "the read error never reaches the result")
-}
-
-// dominatingEq188 finds a dominating `if x == 188` (true edge) for call d.
-func dominatingEq188(d *ssa.Call) (*ssa.If, ssa.Value) {
-	for b := d.Block(); b != nil; b = b.Idom() {
-		id := b.Idom()
-		if id == nil {
-			break
-		}
-		ifi, ok := id.Instrs[len(id.Instrs)-1].(*ssa.If)
-		if !ok || id.Succs[0] != b || len(b.Preds) != 1 {
-			continue
-		}
-		bo, ok := ifi.Cond.(*ssa.BinOp)
-		if !ok || bo.Op != token.EQL {
-			continue
-		}
-		if k, ok := bo.Y.(*ssa.Const); ok && k.Value != nil && k.Int64() == 188 {
-			return ifi, bo.X
-		}
-		if k, ok := bo.X.(*ssa.Const); ok && k.Value != nil && k.Int64() == 188 {
-			return ifi, bo.Y
-		}
-	}
-	return nil, nil
-}
-
-// writeErrorBreaks: after delivery d, the branch `err_d != nil` leads out of
-// the loop (no path back to the loop header) and err_d reaches the result.
-func writeErrorBreaks(fn *ssa.Function, d *ssa.Call) bool {
-	for _, b := range fn.Blocks {
-		ifi, ok := b.Instrs[len(b.Instrs)-1].(*ssa.If)
-		if !ok {
-			continue
-		}
-		bo, ok := ifi.Cond.(*ssa.BinOp)
-		if !ok || bo.Op != token.NEQ {
-			continue
-		}
-		ex, ok := bo.X.(*ssa.Extract)
-		if !ok || ex.Tuple != ssa.Value(d) || ex.Index != 1 {
-			continue
-		}
-		// true successor must not reach the block containing d again
-		seen := map[int]bool{}
-		var reach func(x *ssa.BasicBlock) bool
-		reach = func(x *ssa.BasicBlock) bool {
-			if x == d.Block() {
-				return true
-			}
-			if seen[x.Index] {
-				return false
-			}
-			seen[x.Index] = true
-			for _, s := range x.Succs {
-				if reach(s) {
-					return true
-				}
-			}
-			return false
-		}
-		if reach(b.Succs[0]) {
-			return false
-		}
-		// the error flows into a returned phi
-		for _, bb := range fn.Blocks {
-			for _, ins := range bb.Instrs {
-				if phi, ok := ins.(*ssa.Phi); ok {
-					for _, e := range phi.Edges {
-						if e == ssa.Value(ex) {
-							return true
-						}
-					}
-				}
-				if r, ok := ins.(*ssa.Return); ok {
-					for _, res := range r.Results {
-						if res == ssa.Value(ex) {
-							return true
-						}
-					}
-				}
-			}
-		}
-	}
-	return false
 }
 
 // ------------------------------------------------------------------ adapters
@@ -423,6 +276,44 @@ func (c *Checker) checkReadFromStep() {
 	if read == nil || deliver == nil {
 		c.undecided("C18.readstep", anchor, "loop step", "read or delivery call not found in the loop body")
 		return
+	}
+	// who reads and what is delivered (resolved callee and abstract arguments
+	// of the two calls of the iteration, not the shape of the source)
+	{
+		full, how := false, read.Note
+		var buf *SliceV
+		if len(read.Args) >= 2 {
+			buf, _ = read.Args[1].(*SliceV)
+		}
+		whole := false
+		if buf != nil {
+			lo, ok1 := buf.Lo.ConstInt()
+			n, ok2 := buf.Len.ConstInt()
+			whole = ok1 && ok2 && lo == 0 && n == 188
+		}
+		switch {
+		case read.Note == "io.ReadFull":
+			full = whole
+		case read.Note == "io.ReadAtLeast" && len(read.Args) == 3:
+			if m, ok := read.Args[2].(*BV); ok {
+				if k, isK := m.ConstInt(); isK && k == 188 {
+					full = whole
+				}
+			}
+			how += " with minimum " + showVal(read.Args[2])
+		default:
+			how = "a single " + read.Note + " call (a reader may return fewer than 188 bytes per call: short reads would be dropped or reported as invalid length)"
+		}
+		c.check("C18.readfrom", anchor, "the 188-byte buffer is filled by a full-packet read (partial reads accumulate)", full, "the packet comes from "+how)
+		same := false
+		what := "<none>"
+		if len(deliver.Args) >= 2 {
+			what = showVal(deliver.Args[1])
+			if sn, ok := deliver.Args[1].(*SnapV); ok && buf != nil {
+				same = sn.Ptr.Obj == buf.Obj && sn.Ptr.Path == buf.Prefix && sn.Ptr.Base == 0
+			}
+		}
+		c.check("C18.readfrom", anchor, "the packet delivered is the buffer the read filled", same, "delivered "+what)
 	}
 	rres, ok1 := read.Val.(*StructV)
 	dres, ok2 := deliver.Val.(*StructV)
